@@ -52,7 +52,7 @@ PairOk(r) ==
   /\ (r.resA = "ok" /\ r.resB = "ok" /\ r.what \notin {"cut", "halfcut"}) => (r.sentA = r.recvB /\ r.sentB = r.recvA)
   /\ r.accept # "Allow" => /\ ~r.changedB
                            /\ r.resB \in {"abort", "err"}
-                           /\ r.what = "" => (r.resB = "abort" /\ r.resA = "abort")
+                           /\ r.what = "" => (r.resB = "abort" /\ r.resA \in {"abort", "err"})
 
 \* the public connect_and_sync against the public handle_connection over real local endpoints: the shapes of both
 \* results are what the live actor consumes (abort reason, namespace and peer of the error), see LiveSync.tla
@@ -71,7 +71,7 @@ NetOk(r) ==
      THEN \* an allowed request that fails locally is reported with the document and the peer it was about
           \* (which error variant carries them is not the property's business)
           /\ r.resB \in {"Sync", "Close", "Open", "Abort"} /\ r.infoB.nsknown /\ r.infoB.ns /\ r.infoB.peer
-          /\ r.resA \in {"ok", "Sync", "Close"}
+          /\ r.resA \in {"ok", "Sync", "Close", "RemoteAbort"}     \* success with nothing exchanged, or a reported error
      ELSE /\ r.resA = "ok" /\ r.resB = "ok"
           /\ r.okA.ns /\ r.okA.peer /\ r.infoB.ns /\ r.infoB.peer
           /\ r.okA.sent = r.infoB.recv /\ r.okA.recv = r.infoB.sent
